@@ -19,18 +19,18 @@ ASSUMPTIONS = [
     "documents that do not tokenize are C01's concern and are skipped (counted)",
     "a line 'exists' if 1 <= line <= len(text.split('\\n')); column within max(raw, tab-expanded) length + 1",
 ]
-LIMIT = {"Z2": 60000, "Z3": 30000, "Z4": 30000}
+LIMIT = {"Z2": 60000, "Z3": 30000, "Z4": 30000, "Z7": 30000}
 _PLUG = re.compile(r"Plugin id '([A-Za-z0-9]+)' had a critical failure during the '([a-z_]+)' action")
 _LINE = re.compile(r"^(?:stdin|in-memory):(\d+):(\d+): ([A-Z0-9]+): ")
 
 
 def universe_hash():
-    return U.content_hash()
+    return PL.hash_ab()
 
 
 def plan(tier, seed, complete=False):
     items, zinfo = PL.plan_docs(
-        tier, seed, complete, quick={"Z1": 2500, "Z2": 2500, "Z3": 1800, "Z4": 1800}, z1_all=False, limit=LIMIT
+        tier, seed, complete, quick={"Z1": 2200, "Z2": 2200, "Z3": 1500, "Z4": 1500, "Z7": 1600}, z1_all=False, limit=LIMIT, zones=("Z1", "Z2", "Z3", "Z4", "Z7"), force_b=True
     )
     return {
         "items": items, "zones": zinfo, "exhaustive": False,
